@@ -45,6 +45,13 @@ def lattice(tier, seed):
                 continue
             cells.append({"method": m, "t_eval": te, "shape": ("vec2" if n % 2 else "mat22"), "args": (n % 3 == 0), "max_step": None, "tol": 1e-6, "atolf": 1.0,
                           "dense": bool(n % 2), "events": True, "terminal": True})
+    # one callbacks LIST shared by two facade calls: a call with min_step, then the observed call with max_step (the facade adds its own
+    # step-bounding callback to a copy; what an earlier call added must not act in a later one, the caller's list stays as it was)
+    for m in ["RK45", "RK87", "cls:RK45CKSolver"] + (["DOPRI45", "RK108"] if thorough else []):
+        for te in (None, [0.5, 1.5, 2.0]):
+            n += 1
+            cells.append({"method": m, "t_eval": te, "shape": "vec2", "args": False, "max_step": 0.0625, "tol": 1e-3, "atolf": 1.0,
+                          "dense": False, "events": False, "sharedCallbacks": True})
     # backward spans through the facade (without t_eval, which it only accepts on forward spans): with and without step bounds
     for m in methods:
         for k, sh in enumerate(("vec2", "mat22")):
@@ -117,8 +124,18 @@ def cell_job(cell):
     term = bool(cell.get("terminal")) and evs is not None
     TE = 1.3
     try:
+        shared = None
+        if cell.get("sharedCallbacks"):
+            seen = []
+            shared = [lambda s_: seen.append(float(s_.t[-1]))]
+            o1 = dict(opts)
+            o1.pop("max_step", None)
+            de.solve_ivp(f, span, y0, method=method, min_step=0.5, callbacks=shared, args=args, **o1)
+            opts["callbacks"] = shared
         res = de.solve_ivp(f, span, y0, method=method, t_eval=cell["t_eval"], dense_output=cell["dense"], events=evs, args=args, **opts)
         out["ran"] = True
+        out["callerListUntouched"] = bool(shared is None or len(shared) == 1)
+        opts.pop("callbacks", None)
         sysm = res.ode_system
         t, y = np.asarray(res.t), np.asarray(res.y)
         nt = len(t)
@@ -218,7 +235,7 @@ def check(run, replay=None):
     obs = core.pool_map(cell_job, cells)
     defaults = {"ran": False, "tShapeOk": True, "yShapeOk": True, "startsAtInitialCondition": True, "columnsPair": True, "hasTEval": False, "nTEval": 0, "tGaps": [],
                 "sortedNondecreasing": True, "endUnits": 0, "solTolUnits": -1, "argsBoundInOrder": True, "maxStepUnits": 0, "fieldsOfUnderlyingSystem": True,
-                "objectApiIdentical": True, "scipyTolUnits": -1, "beyondEvent": False, "nEvents": 0, "wantEvents": -1}
+                "objectApiIdentical": True, "scipyTolUnits": -1, "beyondEvent": False, "nEvents": 0, "wantEvents": -1, "callerListUntouched": True}
     payload = []
     for k, o in enumerate(obs):
         o["id"] = k
